@@ -4,4 +4,4 @@ Extraction Language OCaml.
 Extraction "c05_model.ml" conv_anchor match_wild globb load_cfg raw_cfg should_accept should_store
   should_accept_origin accept_spec store_spec origin_spec
   run_bytes run_bytes_tls run_net run_net_w replies_of attach dialogue seq_ok reply_ok size_ok accept_ok
-  entitled store_after store_after_cap stored_source deliveries_of first_code init rcpt_of origin_of mail_facts_of size_seen_ok plain_mail_ok broker_emit table_listener session_answer deny_line smtp_domain_default.
+  entitled store_after store_after_cap stored_source deliveries_of first_code init rcpt_of origin_of mail_facts_of size_seen_ok plain_mail_ok broker_emit table_listener session_answer chain_add chain_emit deny_line smtp_domain_default.
